@@ -31,3 +31,25 @@ package policy
 //@   requires policy != nil && pod != nil && compiledOK(policy) && egressTablesOK(policy)
 //@   modifies fresh elemsof(*v1.Namespace), fresh elemsof(interface{})
 //@   loop 0,1,2 invariant true
+
+// ---- the shape above is what policyResult builds (C18): the halves follow ingressOrEgress, each with one
+// rule per spec rule; podSelectorToTable / peerRule are the lister boundary (assumed: a result on success)
+//@ func [C18] ingressOrEgress
+//@   requires np != nil
+//@   ensures [C18:some-half-is-compiled] result0 || result1
+//@   modifies nothing
+//@   loop 0 invariant true
+//@ func (*PolicyManager).podSelectorToTable trusted
+//@   modifies fresh ipsetTable.*, fresh elemsof(ipset.Entry), fresh elemsof(interface{}), fresh elemsof(string)
+//@   ensures result1 == nil ==> result0 != nil && fresh(result0)
+//@ func (*PolicyManager).peerRule trusted
+//@   modifies fresh rule.*, fresh ipsetTable.*, fresh elemsof(ipset.Entry), fresh elemsof(interface{}), fresh elemsof(string)
+//@   ensures result != nil && fresh(result)
+//@ func tableNameHash trusted
+//@   modifies nothing
+//@ func [C18] (*PolicyManager).policyResult
+//@   requires np != nil
+//@   ensures [C18:compiled-policy-shape] result2 == nil ==> (result0 != nil || result1 != nil) && (result0 != nil ==> len(result0.srcRules) == len(np.Spec.Ingress) && result0.dstIPTable != nil) && (result1 != nil ==> len(result1.dstRules) == len(np.Spec.Egress) && result1.srcIPTable != nil)
+//@   modifies fresh ingressRule.*, fresh egressRule.*, fresh rule.*, ipsetTable.IPSet, fresh ipsetTable.entries, elemsof(rule), fresh elemsof(ipset.Entry), fresh elemsof(interface{}), fresh elemsof(string)
+//@   loop 0 invariant inRules != nil && len(inRules.srcRules) == idx && inRules.dstIPTable != nil
+//@   loop 1 invariant eRules != nil && len(eRules.dstRules) == idx && eRules.srcIPTable != nil && (inRules != nil ==> len(inRules.srcRules) == len(np.Spec.Ingress) && inRules.dstIPTable != nil)
